@@ -15,6 +15,16 @@ import (
 func init() {
 	f := "internal/native/wat2x64/func.go"
 	register(&Property{ID: "C02", Run: runC02, Mutants: []Mutant{
+		{Name: "x64 f32.neg flips the sign bit with a 64-bit xor", File: "internal/native/wat2x64/func.go", Old: "xor eax, 0x80000000", New: "xor rax, 0x80000000", Expect: "x64-imm-encodable :: f32.neg"},
+		{Name: "x64 memory.grow loads its i32 operand as a qword", File: "internal/native/wat2x64/func.go", Old: "fmt.Fprintf(w, \"    mov eax, dword ptr [rbp%+d]\\n\", sp0)\n\t\tfmt.Fprintf(w, \"    add rax, r10\\n\")", New: "fmt.Fprintf(w, \"    mov rax, qword ptr [rbp%+d]\\n\", sp0)\n\t\tfmt.Fprintf(w, \"    add rax, r10\\n\")", Expect: "x64-slot-width :: memory.grow"},
+		{Name: "the engine's memory.grow only compares the 32-bit sum with the maximum", File: "internal/3rdparty/wazero/internal/wasm/memory.go", Old: "if newPages > m.Max || newPages < currentPages {", New: "if newPages > m.Max {", Expect: "engine-grow-no-wrap"},
+		{Name: "x64 br_if names its fall-through label after the target block", File: "internal/native/wat2x64/func.go", Old: "labelBrFallthroughId := p.makeLabelId(kLabelPrefixName_brFallthrough, destScopeContex.Label, p.genNextId())", New: "labelBrFallthroughId := p.makeLabelId(kLabelPrefixName_brFallthrough, destScopeContex.Label, destScopeContex.LabelSuffix)", Expect: "site-label-unique :: wat2x64 INS_BR_IF"},
+		{Name: "loong64 br_table names its case labels after the target only", File: "internal/native/wat2la/func.go", Old: "\t\t\t\t\tp.gasFuncLabel(w, p.makeLabelId(kLabelPrefixName_brCase, fmt.Sprintf(\"%d.%s\", k, i.XList[k]), labelSuffix))", New: "\t\t\t\t\tp.gasFuncLabel(w, p.makeLabelId(kLabelPrefixName_brCase, i.XList[k], labelSuffix))", Expect: "site-label-unique :: wat2la INS_BR_TABLE"},
+		{Name: "x64 call pops its arguments first to last", File: "internal/native/wat2x64/func.go", Old: "\t\tfor k := len(argList) - 1; k >= 0; k-- {\n\t\t\tx := fnCallType.Params[k]\n\t\t\targList[k] = stk.Pop(x.Type)", New: "\t\tfor k := 0; k < len(argList); k++ {\n\t\t\tx := fnCallType.Params[k]\n\t\t\targList[k] = stk.Pop(x.Type)", Expect: "list-stack-order :: wat2x64 "},
+		{Name: "riscv if/else removes the then-results first to last", File: "internal/native/wat2rv/func.go", Old: "\t\t\t\tfor k := len(i.Results) - 1; k >= 0; k-- {\n\t\t\t\t\tretType := i.Results[k]\n\t\t\t\t\tstk.Pop(retType)", New: "\t\t\t\tfor k := 0; k < len(i.Results); k++ {\n\t\t\t\t\tretType := i.Results[k]\n\t\t\t\t\tstk.Pop(retType)", Expect: "list-stack-order :: wat2rv "},
+		{Name: "x64 label lookup scans the scope stack outermost-first", File: "internal/native/wat2x64/stack_scope.go", Old: "\t\tfor i := len(p.stack) - 1; i >= 0; i-- {\n\t\t\tif ctx := p.stack[i]; ctx.Label == label {", New: "\t\tfor _, ctx := range p.stack {\n\t\t\tif ctx.Label == label {", Expect: "label-scope-innermost-first :: wat2x64"},
+		{Name: "loong64 label lookup counts up from the oldest scope", File: "internal/native/wat2la/stack_scope.go", Old: "\t\tfor i := len(p.stack) - 1; i >= 0; i-- {\n\t\t\tif ctx := p.stack[i]; ctx.Label == label {", New: "\t\tfor i := 0; i < len(p.stack); i++ {\n\t\t\tif ctx := p.stack[i]; ctx.Label == label {", Expect: "label-scope-innermost-first :: wat2la"},
+		{Name: "memory.grow to exactly the declared maximum fails natively", File: "internal/native/wat2x64/func.go", Old: "\t\tfmt.Fprintf(w, \"    ja  %s\\n\", labelElse)", New: "\t\tfmt.Fprintf(w, \"    jae %s\\n\", labelElse)", Expect: "memory-grow-limit"},
 		{Name: "x64 data strings keep a raw backslash", File: "internal/native/wat2x64/utils.go", Old: "if b >= 32 && b <= 126 && b != '\"' && b != '\\\\' {", New: "if b >= 32 && b <= 126 && b != '\"' && b != '/' {", Expect: "gas-string-literal"},
 		{Name: "riscv data strings escape with a variable number of octal digits", File: "internal/native/wat2rv/utils.go", Old: "fmt.Sprintf(\"\\\\%03o\", b)", New: "fmt.Sprintf(\"\\\\%o\", b)", Expect: "gas-string-literal"},
 		{Name: "indirect calls record the caller's argument area", File: "internal/native/wat2x64/func.go", Old: "\t\t\tp.fnMaxCallArgsSize = fnCallNative.ArgsSize", New: "\t\t\tp.fnMaxCallArgsSize = fnNative.ArgsSize", Nth: 1, Expect: "running-maximum"},
@@ -274,7 +284,10 @@ func runC02(c *Ctx) {
 		"NOT decided: the full semantics of each assembly template (flags, traps, NaN handling), calls/blocks/branches, the runtime helpers, assembler and linker."
 	c.Trusted = []string{"go/packages, go/types (x/tools v0.29.0)", "embedded WebAssembly instruction table", "x86-64 mnemonic table in c02.go (condition codes, sign/zero extension, rounding immediates)"}
 	c.Exhaust = true
-	p := c.Load(LoadOpt{Light: true}, "./internal/wat/token", "./internal/native/wat2x64", "./internal/native/wat2la", "./internal/native/wat2rv", "./internal/native/wat2arm64", "./internal/wat/watutil/wat2c")
+	p := c.Load(LoadOpt{Light: true}, "./internal/wat/token", "./internal/native/wat2x64", "./internal/native/wat2la", "./internal/native/wat2rv", "./internal/native/wat2arm64", "./internal/wat/watutil/wat2c", "./internal/3rdparty/wazero/internal/wasm")
+	if wz := p.MustPkg("engine-grow-no-wrap", "internal/3rdparty/wazero/internal/wasm"); wz != nil {
+		c02EngineGrow(c, p, wz)
+	}
 	ins, tk := watTokenTable(c, p, "exhaustive")
 	if tk == nil {
 		return
@@ -307,6 +320,31 @@ func runC02(c *Ctx) {
 	c02GasString(c, p)
 	c02RunningMax(c, p)
 	c02Memmove(c)
+	nScope := 0
+	for _, tr := range translators {
+		if pk := p.Pkg(tr.pkg); pk != nil {
+			nScope += c02ScopeLookup(c, p, pk, tr.name)
+		}
+	}
+	c.Min("label-scope-innermost-first", "label lookup loops in the translators", nScope, 4)
+	nPop, nPush := 0, 0
+	for _, tr := range translators {
+		if pk := p.Pkg(tr.pkg); pk != nil && tr.name != "wat2c" {
+			a, b := listStackOrder(c, p, pk, tr.name+" ")
+			nPop, nPush = nPop+a, nPush+b
+		}
+	}
+	c.Min("list-stack-order", "loops that pop a list of operands in the native translators", nPop, 20)
+	c.Min("list-stack-order", "loops that push a list of operands in the native translators", nPush, 36)
+	nLabels := 0
+	for _, tr := range translators {
+		if pk := p.Pkg(tr.pkg); pk != nil && tr.name != "wat2c" {
+			nLabels += c02SiteLabels(c, p, pk, tr.name)
+		}
+	}
+	c.Min("site-label-unique", "assembler labels defined by instruction arms of the native translators", nLabels, 36)
+	c02MemoryGrowLimit(c, p, x64)
+	c02ImmEncodable(c, p, x64, ins)
 	// sibling agreement
 	var names []string
 	for k := range ins {
@@ -467,6 +505,40 @@ func runC02(c *Ctx) {
 			}
 		}
 	}
+	// operand slots of the other fixed-signature arms (memory.grow, memory.copy, …): a 32-bit operand is read as a
+	// dword — the upper half of its 8-byte slot holds whatever a wider value left there
+	nOther := 0
+	for _, k := range names {
+		m := ins[k]
+		a, ok := x64[k]
+		sp := wasmSpec[m]
+		if !ok || a.Fatal || sp == nil || sp.Poly || (len(m) >= 5 && m[3] == '.') {
+			continue
+		}
+		want := map[string]string{"i32": "dword", "f32": "dword", "i64": "qword", "f64": "qword"}
+		for _, v := range a.Variants {
+			for _, o := range v.Ops {
+				if o.Var == "" || o.Kind != "pop" {
+					continue
+				}
+				for _, l := range v.Lines {
+					for _, arg := range l.Args {
+						if arg != o.Var {
+							continue
+						}
+						ws := accessWidths(l.Format)
+						if len(ws) != 1 {
+							continue
+						}
+						nOther++
+						c.Check(ws[0] == want[o.Type], "x64-slot-width", m+" pop "+o.Var, p.Pos(a.Arm.Clause.Pos()), ws[0]+" access for "+o.Type,
+							fmt.Sprintf("template for %s reads the operand slot %s (%s) as %s ptr: the slot is 8 bytes wide and a %s value is stored into its lower half only, so the upper half is whatever an earlier, wider value left there", m, o.Var, o.Type, ws[0], o.Type))
+					}
+				}
+			}
+		}
+	}
+	c.Min("x64-slot-width", "operand reads of memory.* and other fixed-signature arms", nOther, 10)
 	c.Min("x64-core-op", "arms with a characteristic operation", ncore, 110)
 	c.Count("dormant_templates", ndormant)
 	c.Note("dormant templates (mnemonics the Wa compiler and runtime never emit; content discrepancies there are notes): %s", strings.Join(dormantList, " "))
